@@ -87,7 +87,8 @@ PROPS["C20"] = {
 
 PROPS["C03"] = {
     "module": "ScpiVerif.Props.C03",
-    "domains": [{"name": "match", "cfgs": ["A"]}],
+    # p02: the matcher through the public API inside handlers (SCPI_IsCmd, SCPI_Match: token V; SCPI_CommandNumbers: token U)
+    "domains": [{"name": "match", "cfgs": ["A"]}, {"name": "p02", "cfgs": ["A"], "keep": "P,H,V,U"}],
     "clauses": ["C03."],
     "level": "proof",
     "trusted_base": [KERNEL, CORR, PLATFORM, "Spec/Pattern.lean: pattern grammar, accepted language (all readings), well-formedness side condition"],
@@ -104,7 +105,7 @@ def _pprop(mod, doms, clauses, rule, extra=None):
             "trusted_base": [KERNEL, CORR + "; guarded hooks report each message handed to SCPI_Parse and poison the stale tail of the input buffer", PLATFORM,
                              "libc number conversion (strtol family, strtod/strtof correctly rounded) as specified in Model/Prim.lean and Spec/Float.lean"] + (extra or []),
             "assumptions": [_CTX], "rule": _PRULE + rule}
-PROPS["C02"] = _pprop("ScpiVerif.Props.C02", [{"name": "p02", "cfgs": ["A"], "keep": "P,H,G,E-113"}, {"name": "p06", "cfgs": ["A"], "keep": "P,H,G,E-113"}], ["C02."],
+PROPS["C02"] = _pprop("ScpiVerif.Props.C02", [{"name": "p02", "cfgs": ["A"], "keep": "P,H,G,E-113,V,U", "clauses": ["C03.api_"]}, {"name": "p06", "cfgs": ["A"], "keep": "P,H,G,E-113"}], ["C02."],
     "messages of 1..6 units with headers in every spelling (short / long, case, leading colon, optional keywords in or out, numeric suffixes, relative headers, undefined, common), overlapping and duplicate patterns; judged: handler sequence and effective headers recomputed from the raw message with Spec/Message.lean + Spec/Pattern.lean; non-trivial = at least one handler or error event")
 PROPS["C06"] = _pprop("ScpiVerif.Props.C06", [{"name": "p06", "cfgs": ["A"], "keep": "P,H,W,F"}, {"name": "p02", "cfgs": ["A"], "keep": "P,H,W,F"}], ["C06."],
     "messages of 1..6 units mixing commands and queries whose scripts emit 0..4 items of every result type and succeed or fail, one or two messages per context; judged: bytes written and flush count per SCPI_Input call against frame() over independently encoded items")
